@@ -214,3 +214,42 @@ Theorem C01_round_trip_end_to_end_compressed :
       wlog s_r = map WPong (pings_of (body fs)).
 Proof. exact round_trip_end_to_end_compressed. Qed.
 Print Assumptions C01_round_trip_end_to_end_compressed.
+
+
+(* ---- a control message may also be sent through NextWriter / ReadFrom / Close ----
+   (the repaired messageWriter.ReadFrom: a full buffer is flushed only once a lookahead byte has
+   arrived, so a control payload of exactly the buffer capacity whose source reports io.EOF
+   separately is no longer refused as "fragmented").  Any chunking of the source, including empty
+   Reads and a final empty chunk; the wire gains exactly one frame, byte for byte the one
+   WriteControl sends.  Proofs/ReadFromP.v. *)
+Require Import WS.Proofs.PrepBase WS.Proofs.ReadFromP.
+
+Theorem C01_control_read_from_accepted c ty chunks ic cc s :
+  139 <= w_bufsize c ->
+  cur s = None -> werr s = None -> fail_at s = None -> Forall len4 (keys s) ->
+  is_control_ty ty = true -> blen (concat chunks) <= 125 ->
+  exists s' f,
+    wrun c s [WNext ty ic; WReadFrom chunks; WClose cc] = ([None; None; None], s') /\
+    f = mkf true ty 0 (role_mkey c s) (concat chunks) /\
+    wire s' = wire s ++ encode_frame f /\
+    encode_frame f = control_frame (w_server c) ty (next_key s) (concat chunks) /\
+    wf_frame f /\
+    wf_wire (negb (w_server c)) (w_negotiated c) (tag [f]) = true /\
+    open_after false (tag [f]) = false /\
+    events_of [f] = [ECtl ty (concat chunks)] /\
+    werr s' = (if ty =? c_CloseMessage then Some WCloseSent else None) /\ cur s' = None.
+Proof. exact (control_read_from_accepted c ty chunks ic cc s). Qed.
+Print Assumptions C01_control_read_from_accepted.
+
+(* capacity exactly 125 (newConn with a 1-byte user buffer), a 125-byte ping, io.EOF reported by
+   a separate Read: refused before the repair *)
+Example C01_ping125_eof_separately :
+  let c := {| w_server := true; w_bufsize := eff_wbuf 1; w_pooled := false; w_negotiated := false |} in
+  let pay := map N.of_nat (seq 0 125) in
+  let r := wrun c (init_wst c [] None) [WNext c_PingMessage []; WReadFrom [pay; []]; WClose []] in
+  cap c = 125 /\ blen pay = 125 /\
+  fst r = [None; None; None] /\
+  wire_of (evs (snd r)) = control_frame true c_PingMessage [] pay /\
+  oracle_short (snd r) = false.
+Proof. exact ping125_eof_separately. Qed.
+Print Assumptions C01_ping125_eof_separately.
